@@ -17,7 +17,6 @@ FEEDS = {
     "Cargo.toml": ["Fb_", "Df_", "Es_", "Ad_", "Tk_", "Ta_", "Transfer"],
     "fixed-buffer/Cargo.toml": ["Fb_", "Df_", "Es_", "Ad_", "Transfer"],
     "fixed-buffer-tokio/Cargo.toml": ["Tk_", "Ta_"],
-    "Cargo.lock": ["Tk_", "Ta_"],
 }
 
 
@@ -52,24 +51,6 @@ def manifest_env(repo):
         if crate and os.path.exists(os.path.join(d, "build.rs")):
             lines.append("build.rs present")
         out[rel] = lines
-    # the lockfile pins WHICH fixed-buffer / tokio the crates are compiled against (the tokio crate links the registry copy of
-    # fixed-buffer): one line per locked package
-    lk = os.path.join(repo, "Cargo.lock")
-    pk = []
-    if os.path.exists(lk):
-        name = None
-        for ln in open(lk):
-            ln = ln.strip()
-            if ln.startswith("name = "):
-                name = ln.split("=", 1)[1].strip().strip('"')
-            elif ln.startswith("version = ") and name:
-                pk.append("locked %s %s" % (name, ln.split("=", 1)[1].strip().strip('"')))
-                name = None
-    if os.path.exists(lk):
-        out["Cargo.lock"] = sorted(pk)
-    elif os.path.exists(BASELINE):
-        # no lockfile in the tree (it is not under version control): nothing to compare, cargo will resolve afresh
-        out["Cargo.lock"] = json.load(open(BASELINE)).get("Cargo.lock", [])
     return out
 
 
